@@ -17,7 +17,11 @@ def guard(name, file, within, block_end, sig, pre, fn, wrap=False):
                 contract="\n    ensures\n        /*@%s_refuses_append_only*/ %s ==> r is Err,\n" % (name, pre))
 
 
+R_ATTRS = Rw("", "", count=None, kind="attrs", optional=True, why="serde/clap/setters helper attributes removed (inert without their proc macros)")
 UNITS = [
+    Unit(name="RewriteOptions", file="crates/core/src/commands/rewrite.rs", kind="type", anchor="pub struct RewriteOptions {", rewrites=[R_ATTRS]),
+    Unit(name="RepairSnapshotsOptions", file="crates/core/src/commands/repair/snapshots.rs", kind="type", anchor="pub struct RepairSnapshotsOptions {", rewrites=[R_ATTRS]),
+    Unit(name="ConfigOptions", file="crates/core/src/commands/config.rs", kind="type", anchor="pub struct ConfigOptions {", rewrites=[R_ATTRS]),
     guard("guard_prune", "crates/core/src/commands/prune.rs", "pub(crate) fn prune_repository<S: Open>(",
           "repo.warm_up_wait(prune_plan.repack_packs().into_iter())?;",
           "fn guard_prune(repo: &VRepo) -> (r: RusticResult<()>)", "is_append_only(repo)", "commands::prune::prune_repository"),
@@ -29,19 +33,19 @@ UNITS = [
           "fn guard_repair_index(repo: &VRepo) -> (r: RusticResult<()>)", "is_append_only(repo)", "commands::repair::index::repair_index"),
     guard("guard_repair_snapshots", "crates/core/src/commands/repair/snapshots.rs", "pub(crate) fn repair_snapshots<S: IndexedFull>(",
           "let mut state = RepairState::new(opts, repo.index());",
-          "fn guard_repair_snapshots(repo: &VRepo, opts: &VRepairSnapshotsOptions) -> (r: RusticResult<()>)",
+          "fn guard_repair_snapshots(repo: &VRepo, opts: &RepairSnapshotsOptions) -> (r: RusticResult<()>)",
           "is_append_only(repo) && opts.delete", "commands::repair::snapshots::repair_snapshots"),
     guard("guard_rewrite_trees", "crates/core/src/commands/rewrite.rs", "pub(crate) fn rewrite_snapshots_and_trees<S: IndexedFull>(",
           "let mut rewriter = Rewriter::new(",
-          "fn guard_rewrite_trees(repo: &VRepo, opts: &VRewriteOptions) -> (r: RusticResult<()>)",
+          "fn guard_rewrite_trees(repo: &VRepo, opts: &RewriteOptions) -> (r: RusticResult<()>)",
           "is_append_only(repo) && opts.forget", "commands::rewrite::rewrite_snapshots_and_trees"),
     guard("guard_rewrite", "crates/core/src/commands/rewrite.rs", "pub(crate) fn rewrite_snapshots<S: Open>(",
           "let snapshots: Vec<_> = snapshots",
-          "fn guard_rewrite(repo: &VRepo, opts: &VRewriteOptions) -> (r: RusticResult<()>)",
+          "fn guard_rewrite(repo: &VRepo, opts: &RewriteOptions) -> (r: RusticResult<()>)",
           "is_append_only(repo) && opts.forget", "commands::rewrite::rewrite_snapshots"),
     guard("guard_apply_config", "crates/core/src/commands/config.rs", "pub(crate) fn apply_config<S: Open>(",
           "let mut new_config = repo.config().clone();",
-          "fn guard_apply_config(repo: &VRepo, opts: &VConfigOptions) -> (r: RusticResult<()>)",
+          "fn guard_apply_config(repo: &VRepo, opts: &ConfigOptions) -> (r: RusticResult<()>)",
           "is_append_only(repo) && opts.set_append_only != Some(false)", "commands::config::apply_config"),
 ]
 MOD = "crates/core/src/blob/tree/modify.rs"
